@@ -158,6 +158,18 @@ def gen_cases(ctx):
         p = gen_params(ctx, True)
         for s in seqs:
             cases.append({"params": p, "pairs": [list(c) for c in s], "seed": k})
+    # decisions from the very first sample on: no burn-in, fast decay, a wide warning band and a narrow detect band, so that
+    # the first warning can fall on stream index 0 (an index that is falsy in Python) and a drift can follow in the same epoch
+    for k, (eta, warn, det) in enumerate([(0.1, 0.5, 0.02), (0.25, 0.4, 0.01)][:ctx.scale(2, 2)]):
+        for tracked in (["tpr"], ["tnr", "ppv"], list(RATES)):
+            p = {"eta": eta, "warn": warn, "detect": det, "burn_in": 0, "num_mc": 30, "subsample": 1, "tracked": tracked, "round_val": 4}
+            for j in range(ctx.scale(40, 200)):
+                perr = ctx.rng.choice([0.6, 0.9, 1.0])
+                s = []
+                for _ in range(ctx.rng.randint(12, 24)):
+                    t = ctx.rng.randint(0, 1)
+                    s.append([t, 1 - t if ctx.rng.random() < perr else t])
+                cases.append({"params": p, "pairs": s, "seed": 50 + k})
     for k in range(ctx.scale(40, 500)):
         p = gen_params(ctx, False)
         length = ctx.rng.randint(100, 160)
